@@ -4578,7 +4578,11 @@ class ParameterizedMetaclass(type):
             type.__setattr__(mcs,attribute_name,value)
 
             if isinstance(value,Parameter):
-                mcs.__param_inheritance(attribute_name,value)
+                # same as add_parameter: the Parameter learns its name and
+                # the cached params() of this class and of its subclasses
+                # are dropped
+                mcs._initialize_parameter(attribute_name,value)
+                _clear_params_cache(mcs)
 
     def __param_inheritance(mcs, param_name, param):
         """
